@@ -152,8 +152,18 @@ def check_atomic_helper(repo, cls, meth):
                         renames.append((n.lineno, ast.unparse(n.func.value), ast.unparse(n.args[0])))
         bad = [w for w in writes if w[1] == target]
         good = [r for r in renames if r[2] == target and any(w[1] == r[1] and w[0] < r[0] for w in writes)]
-        ok = bool(writes) and not bad and bool(good)
-        why = "writes=%r renames=%r target=%r" % (writes, renames, target)
+        # the temporary file must be complete and closed before it is renamed: a rename inside the `with open(tmp, ...)` block
+        # (or before an explicit close) would put a file whose buffered content is not yet written under the final name
+        early = []
+        for w in ast.walk(fdef):
+            if isinstance(w, ast.With) and any(isinstance(it.context_expr, ast.Call) and _is_write_open(it.context_expr) for it in w.items):
+                for n in ast.walk(w):
+                    if isinstance(n, ast.Call) and isinstance(n.func, ast.Attribute) and n.func.attr == "replace" and n.args:
+                        early.append(n.lineno)
+        opens_outside_with = [n.lineno for n in ast.walk(fdef) if isinstance(n, ast.Call) and _is_write_open(n)
+                              and not any(isinstance(w, ast.With) and any(it.context_expr is n for it in w.items) for w in ast.walk(fdef))]
+        ok = bool(writes) and not bad and bool(good) and not early and not opens_outside_with
+        why = "writes=%r renames=%r target=%r rename-before-close-at-lines=%r write-open-outside-with=%r" % (writes, renames, target, early, opens_outside_with)
     return [dict(name=name, kind="trace", result="discharged" if ok else "undischarged", backend="static", seconds=0.0,
                  reason=None if ok else "not a write-temporary-then-rename helper: " + why)]
 
